@@ -1,12 +1,13 @@
 """Harness sets of the statechart step harness (h_fsm.rs) shared by C01, C02, C06, C07."""
 
 QUICK = [
-    ('h_start_all', 'start-up of all 12 catalogue shapes, early/late binding'),
+    ('h_start_all', 'start-up of all 13 catalogue shapes, early/late binding'),
     ('h_sc1_s0', 'flat, T=1 full'), ('h_sc1_s1', 'compound, T=1 full'), ('h_sc1_s2', 'depth 3, T=1 full'),
     ('h_sc1_s3', 'parallel 2 regions, T=1 light'), ('h_sc1_s4', 'shallow history, T=1 full'), ('h_sc1_s5', 'deep history, T=1 full'),
     ('h_sc1_s6', 'finals, T=1 full'), ('h_sc1_s7', 'parallel with finals, T=1 light'), ('h_sc1_s8', 'parallel + history in region, T=1 light'),
     ('h_sc1_s9', 'forward references (ids != document order), T=1 full'), ('h_sc1_s10', 'history owned by parallel, T=1 light'),
     ('h_sc1_s11', 'nested parallel + deep history, T=1 light'),
+    ('h_sc1_s12', 'deep history owned by one region of a parallel, T=1 light'),
     ('h_sc1e_s1', 'event-less selection + late binding'), ('h_sc1e_s4', 'event-less + late, history'), ('h_sc1e_s6', 'event-less + late, finals'),
     ('h_sc2r_s3', 'two transitions in different regions of a parallel state'),
 ]
@@ -16,7 +17,7 @@ THOROUGH_EXTRA = [
     ('h_sc2r_s7', 'T=2 restricted'), ('h_sc2r_s1', 'T=2 restricted'),
     ('h_sc2_s0', 'T=2'), ('h_sc2_s1', 'T=2'), ('h_sc2_s6', 'T=2'), ('h_sc2_s9', 'T=2'), ('h_sc2_s4', 'T=2'), ('h_sc2_s2', 'T=2'),
 ]
-BOUNDS = {'states': '<= 11 (12 catalogue shapes: nesting <= 4, <= 2 parallel states, <= 1 history state, finals at every level)',
+BOUNDS = {'states': '<= 11 (13 catalogue shapes: nesting <= 4, <= 2 parallel states, <= 1 history state, finals at every level)',
           'ordinary transitions': 'T = 1 (all shapes) and T = 2 (parallel shapes quick; more shapes thorough), each with symbolic source, 0..2 targets, type, event, guard outcome',
           'pre-state': 'every legal configuration of the shape x every legal recorded history value (inductive step)'}
 ASSUME = [
